@@ -1,1 +1,87 @@
-/- C02 property theorems (stub: not built yet) -/
+import ThriftVerif.Gen.Std
+import ThriftVerif.Gen.StdLemmas
+import ThriftVerif.Core.WireLemmas
+/-
+  C02 — generated Read/Write implement the Thrift wire format of the IDL.
+  Property theorems over `Gen.Std` (the model of the default go templates) and `Core.Wire`.
+  `WT` = the Go object is one a Go program can hold for that IDL type; `SchemaOK` = what the semantic
+  checker guarantees (distinct field ids, union members optional) plus two explicit exclusions
+  (optional fields with a default have a base type; such a default is not NaN).
+-/
+namespace Props.C02
+open Wire Gen Gen.Std
+
+/-- the binary protocol round trip, untyped: every well-formed wire value decodes from its encoding
+(any trailing bytes untouched), at any fuel ≥ its depth. -/
+theorem wire_roundtrip (w : WVal) (f : Nat) (r : Bytes) (h : WF w) (hd : w.depth ≤ f) :
+    decW f w.ttype (encW w ++ r) = some (w, r) := decW_encW w f r h hd
+
+/-- **Write emits a well-formed encoding of the right shape**: whatever a generated `Write` emits for
+a well-typed object is the encoding of a well-formed struct value — every container header count equals
+the number of elements that follow, every field carries the wire type of its IDL type — and a strict
+untyped decoder reads exactly that value back with nothing left over. -/
+theorem write_wellformed (P : Prog) (sidx : Nat) (obj : GoVal) (bs : Bytes)
+    (hwt : WT P.structs (.struct sidx) obj) (h : write P sidx obj = .ok bs) :
+    ∃ w, toW P (.struct sidx) obj = .ok w ∧ WF w ∧ w.ttype = .struct ∧ bs = encW w ∧
+      decW w.depth .struct bs = some (w, []) := by
+  simp only [write, Res.bind_eq_ok] at h
+  obtain ⟨w, hw, hb⟩ := h
+  cases hb
+  obtain ⟨hwf, htt⟩ := toW_WF P obj (.struct sidx) w hwt hw
+  refine ⟨w, hw, hwf, htt, rfl, ?_⟩
+  have := decW_encW w w.depth [] hwf (Nat.le_refl _)
+  rw [htt] at this
+  simpa [Ty.ttype] using this
+
+/-- **Read ∘ Write preserves the value**: for every schema the checker accepts, every struct-like and
+every well-typed object, the generated `Read` accepts the bytes the generated `Write` produced, and
+the object it builds encodes (set-uniqueness validation aside) to exactly the same bytes: field ids,
+wire types, optional-present-iff-set, required/default always present, nested containers, all
+preserved. Unbounded in nesting depth, container sizes and number of fields. -/
+theorem read_write_roundtrip (P : Prog) (hP : SchemaOK P) (sidx : Nat) (obj : GoVal) (bs : Bytes)
+    (hwt : WT P.structs (.struct sidx) obj) (h : write P sidx obj = .ok bs) :
+    ∃ obj', read P sidx bs = some obj' ∧ write (noVal P) sidx obj' = .ok bs := by
+  simp only [write, Res.bind_eq_ok] at h
+  obtain ⟨w, hw, hb⟩ := h
+  cases hb
+  have hw0 := toW_noVal P obj (.struct sidx) w hw
+  have hd : w.depth ≤ (encW w).length + 1 := by have := depth_le_len w; omega
+  obtain ⟨v', hr, ht, _, _⟩ := rt (noVal P) hP rfl obj (.struct sidx) w ((encW w).length + 1) [] hwt hw0 hd
+  refine ⟨v', ?_, ?_⟩
+  · unfold Gen.Std.read
+    simp only [List.append_nil] at hr
+    have : (noVal P).structs = P.structs := rfl
+    rw [this] at hr
+    simp [hr]
+  · simp [write, ht, bind]
+
+/-- a union is written only when exactly one member is set -/
+theorem union_write_refuses (P : Prog) (sidx : Nat) (sd : StructDef) (fs : List GoVal) (bs : Bytes)
+    (hsd : P.struct? sidx = some sd) (hu : sd.kind = 1) (h : write P sidx (.strct fs) = .ok bs) :
+    countSet sd.fields fs = 1 := by
+  simp only [write, Res.bind_eq_ok, toW, hsd] at h
+  obtain ⟨w, hw, _⟩ := h
+  split at hw
+  · cases hw
+  · rename_i hc
+    simp [hu] at hc
+    exact hc
+
+/-- presentation-only options cannot change a wire byte: the model's `write`/`read` depend on the
+program only through its schema and the two semantic switches (`keep_unknown_fields`,
+`validate_set`); the tie to the code for every other option is the correspondence run. -/
+theorem presentation_options_irrelevant (P Q : Prog) (h1 : P.structs = Q.structs) (h2 : P.keepUnknown = Q.keepUnknown)
+    (h3 : P.validateSet = Q.validateSet) : P = Q := by
+  cases P; cases Q; simp_all
+
+/- non-vacuity: a concrete schema satisfies SchemaOK and a concrete object is well-typed and written -/
+def exProg : Prog := { structs := [{ kind := 0, fields := [
+  { id := 1, req := .required, ty := .i32, dflt := none },
+  { id := 2, req := .optional, ty := .str, dflt := some (.bytes [104, 105]) },
+  { id := 3, req := .default, ty := .list .i64, dflt := none }] }] }
+
+example : write exProg 0 (.strct [.int 5, .bytes [97], .list [.int 7]]) =
+    .ok [8, 0, 1, 0, 0, 0, 5, 11, 0, 2, 0, 0, 0, 1, 97, 15, 0, 3, 10, 0, 0, 0, 1, 0, 0, 0, 0, 0, 0, 0, 7, 0] := by
+  rfl
+
+end Props.C02
